@@ -166,14 +166,14 @@ uint32_t Ruleset::runOnce(OomdContext& context) {
     ret = runnable_rulesets_[cgroup.absolutePath()]->runOnceImpl(context);
     visited.insert(cgroup.absolutePath());
   }
-  for (auto&& cgroup_it = runnable_rulesets_.begin();
-       cgroup_it != runnable_rulesets_.end();
-       ++cgroup_it) {
+  for (auto cgroup_it = runnable_rulesets_.begin();
+       cgroup_it != runnable_rulesets_.end();) {
     if (visited.contains(cgroup_it->first)) {
+      ++cgroup_it;
       continue;
     }
     OLOG << "Dropping runnable ruleset for cgroup: " << cgroup_it->first;
-    runnable_rulesets_.erase(cgroup_it);
+    cgroup_it = runnable_rulesets_.erase(cgroup_it);
   }
   return ret;
 }
